@@ -72,6 +72,19 @@ Theorem C12_exit_restores_refuted :
       ≠ answer_of faithful cfg (run faithful cfg st0 ops).2 q.
 Proof. exact exit_restores_refuted. Qed.
 
+(** ** Every answer depends only on the current stack, not on which combinations of contexts the
+    registry has seen before (nor in which order).  Guard [q_rebuild_on_hit = false]; histories
+    without [define] (a unit defined inside an overlay legitimately belongs to that combination);
+    get_base_units additionally needs [q_base_cache_ctx_blind = false]. *)
+Theorem C12_answers_determined_by_stack qk cfg os base ops1 ops2 q :
+  q_rebuild_on_hit qk = false →
+  forallb not_define ops1 = true → forallb not_define ops2 = true →
+  rs_active (run qk cfg (os, init_state base) ops1).2 = rs_active (run qk cfg (os, init_state base) ops2).2 →
+  q_base_cache_ctx_blind qk = false ∨ is_pbase q = false →
+  answer_of qk cfg (run qk cfg (os, init_state base) ops1).2 q
+  = answer_of qk cfg (run qk cfg (os, init_state base) ops2).2 q.
+Proof. exact (answers_determined_by_stack qk cfg os base ops1 ops2 q). Qed.
+
 (** ** A failed activation changes nothing.
     Guarded by [q_partial_activation = false] (F6) and [q_rebuild_on_hit = false]: the registry
     state after the failed [enable_contexts] / [with] entry IS the state before it, and with
@@ -144,3 +157,9 @@ Example C12_failed_activation_nonvacuous :
   (step repaired ex_cfg st (OEnable ["re"] ∅)).2 = OFailed EAssert ∧
   active_names st.2 = ["ra"; "rb"].
 Proof. exact failed_activation_nonvacuous. Qed.
+Example C12_answers_determined_nonvacuous :
+  rs_active (run repaired ex_cfg ex_st ex_hist1).2 = rs_active (run repaired ex_cfg ex_st ex_hist2).2 ∧
+  active_names (run repaired ex_cfg ex_st ex_hist1).2 = ["rb"; "rf"] ∧
+  answer_of repaired ex_cfg (run repaired ex_cfg ex_st ex_hist1).2 p_min_s = AQ (mkq 30 1) ∧
+  answer_of repaired ex_cfg (run repaired ex_cfg ex_st [OEnable ["rb"] ∅; OEnable ["rf"] ∅]).2 p_min_s = AQ (mkq 45 1).
+Proof. exact answers_determined_nonvacuous. Qed.
